@@ -19,8 +19,8 @@ def coq_op(name, arg):
 
 
 def coq_case(c, obs):
-    return '(%s, %s, %s, %d%%Z, [%s], [%s])' % (
-        VAR[c['variant']], ACC[c['acc']], 'true' if c['accum'] else 'false', c['nm'],
+    return '(%s, %s, %s, %s, %d%%Z, [%s], [%s])' % (
+        VAR[c['variant']], ACC[c['acc']], 'true' if c['accum'] else 'false', 'true' if c.get('secure') else 'false', c['nm'],
         '; '.join(coq_op(n, a) for n, a in c['ops']), '; '.join(zl(o) for o in obs))
 
 
@@ -53,7 +53,7 @@ def model_vs_impl(ctx, cases, results, tag, shard=400):
     jobs = []
     for k in range(0, len(cases), shard):
         items = [coq_case(c, r['obs']) for c, r in zip(cases[k:k + shard], results[k:k + shard])]
-        body = 'Definition cases : list (variant * acckind * bool * Z * list (@op Z) * list (list Z)) := [\n ' + ';\n '.join(items) + '\n].\nEval vm_compute in (bad_idx_c 0 cases).\n'
+        body = 'Definition cases : list (variant * acckind * bool * bool * Z * list (@op Z) * list (list Z)) := [\n ' + ';\n '.join(items) + '\n].\nEval vm_compute in (bad_idx_c 0 cases).\n'
         jobs.append((k, 'cases_%s_%d_%d' % (tag, ctx.seed % 100000, k), body))
     with cf.ThreadPoolExecutor(max_workers=12) as ex:
         futs = {ex.submit(vlib.coq_eval, name, header, body): k for k, name, body in jobs}
@@ -77,13 +77,13 @@ def exhaustive(depth, alphabet):
 ALPHA = [('FB', None), ('ST', 0), ('OZ', 0), ('MZ', 0), ('SK', 1), ('SK', 0)]
 
 
-def gen_cases(ctx, depth_exh, n_random, variants=('flat', 'perlayer', 'ghost'), accs=('rdp',), rnd_len=(6, 14)):
+def gen_cases(ctx, depth_exh, n_random, variants=('flat', 'perlayer', 'ghost'), accs=('rdp',), rnd_len=(6, 14), secure=False):
     cases = []
     for v in variants:
         for accum in (True, False):
             for d in range(1, depth_exh + 1):
                 for ops in exhaustive(d, ALPHA):
-                    cases.append({'variant': v, 'acc': accs[0], 'accum': accum, 'nm': 1, 'ops': ops})
+                    cases.append({'variant': v, 'acc': accs[0], 'accum': accum, 'nm': 1, 'ops': ops, 'secure': secure and d % 2 == 0})
     r = ctx.rng
     for _ in range(n_random):
         n = r.randint(*rnd_len)
@@ -107,14 +107,14 @@ def gen_cases(ctx, depth_exh, n_random, variants=('flat', 'perlayer', 'ghost'), 
         if nxt > 22:
             continue
         cases.append({'variant': r.choice(list(variants)), 'acc': r.choice(list(accs)), 'accum': r.random() < 0.7,
-                      'nm': r.choice([1, 2]), 'ops': out})
+                      'nm': r.choice([1, 2]), 'ops': out, 'secure': secure and r.random() < 0.5})
     return cases
 
 
 def register(ctx, cases):
     for c in cases:
         names = [o[0] for o in c['ops']]
-        ctx.case({'v': c['variant'], 'a': c['acc'], 'm': c['accum'], 'ops': c['ops']},
+        ctx.case({'v': c['variant'], 'a': c['acc'], 'm': c['accum'], 's': bool(c.get('secure')), 'ops': c['ops']},
                  nontrivial=('FB' in names and 'ST' in names), kind='%s/%s/len%d' % (c['variant'], c['acc'], min(len(names), 9)))
 
 
